@@ -94,12 +94,16 @@ def verify_function(con, reg, repo="/repo", z3_ms=None, extra=None):
     can = []
     for label, hyps in eng.reach:
         can.append(Oblig("%s::canary::reach:%s" % (con.qual, label), "canary", hyps, z3.BoolVal(False)))
-    if eng.return_states:
-        st, rv = eng.return_states[0]
-        can.append(Oblig("%s::canary::must-fail:post-False" % con.qual, "canary", st.pc, z3.BoolVal(False)))
+    for i, (st, rv) in enumerate(eng.return_states[:8]):
+        can.append(Oblig("%s::canary::must-fail:post-False#%d" % (con.qual, i), "canary", st.pc, z3.BoolVal(False)))
     cres = solve.discharge(can, z3_ms=1500, use_cvc5=False)
+    mf = [r for r in cres if "must-fail" in r["name"]]
     for r in cres:
-        out["canaries"].append(dict(kind="not-provably-false", label=r["name"].split("::canary::")[1], result=r["status"], ok=(r["status"] != "discharged")))
+        if "must-fail" not in r["name"]:
+            out["canaries"].append(dict(kind="not-provably-false", label=r["name"].split("::canary::")[1], result=r["status"], ok=(r["status"] != "discharged")))
+    if mf:
+        okc = any(r["status"] != "discharged" for r in mf)
+        out["canaries"].append(dict(kind="must-fail", label="post::False on some return path (of %d sampled)" % len(mf), result="not provable" if okc else "PROVABLE", ok=okc))
     out["wall_s"] = round(time.time() - t0, 3)
     return out, eng
 
